@@ -533,6 +533,9 @@ func (c *evalCtx) eval(n *Node) SV {
 				return SV{T: app("select", b.T, k.T), Ty: u.Elem(), Opt: true}
 			}
 		}
+		if strings.HasPrefix(b.Sort, "(GSeq ") {
+			return SV{T: app("select", app("gseq.arr", b.T), k.T), Sort: b.Sort[6 : len(b.Sort)-1]}
+		}
 		return SV{T: app("select", b.T, k.T)}
 	case "update":
 		b := c.eval(n.Args[0])
